@@ -56,7 +56,7 @@ def rigidity_case(cid, rng, train_sizes, test_sizes, comp, alpha, with_witness=T
             lpr, rd = local_prediction_rigidity([t.copy() for t in trf], [t.copy() for t in tef], a)
             cpr, lcpr, rd2 = componentwise_prediction_rigidity([t.copy() for t in trf], [t.copy() for t in tef], a, np.asarray(comp))
             single = componentwise_prediction_rigidity([t.copy() for t in trf], [t.copy() for t in tef], a, np.asarray([d]))[1]
-            f = float(rng.choice([0.25, 3.0, 16.0]))
+            f = float(rng.choice([0.25, 3.0, 16.0, 1e-7, 1e-9, 1e6]))      # a common rescaling by many orders of magnitude as well
             resc = local_prediction_rigidity([t * f for t in trf], [t * f for t in tef], a)[0]
             grid = [local_prediction_rigidity([t.copy() for t in trf], [t.copy() for t in tef], g)[0] for g in (a / 64, a / 4, a, a * 8, a * 512)] if a > 0 else []
         c["lpr_rq"] = [[rq(v) for v in s_] for s_ in lpr]
